@@ -127,6 +127,9 @@ func runC03(r *core.Run) {
 	}
 	var ts traceSet
 	for i := range obs {
+		if obs[i].Skipped {
+			continue // not executed: the run had already met many calls that do not return
+		}
 		o, op, inf := &obs[i], &ops[i], info[i]
 		it := &items[inf.item]
 		if op.Trace && !o.Bad() && o.Err == "" {
@@ -284,6 +287,9 @@ func runExifAlign(r *core.Run) {
 	}
 	var base map[string]interface{}
 	for i := range obs {
+		if obs[i].Skipped {
+			continue // not executed: the run had already met many calls that do not return
+		}
 		o, op, k := &obs[i], &ops[i], keys[i]
 		desc := map[string]interface{}{"input": fmt.Sprintf("all-tags record (%s), IFD0 at %d", k.bo, k.shift), "entry": k.entry}
 		if o.Bad() {
